@@ -333,12 +333,36 @@ def judge (line : String) : String :=
         match ((u.drop 7).toString).toNat?, ((m.drop 6).toString).toNat?, parseSizes ((sz.drop 6).toString),
               parseSizes ((tot.drop 7).toString), parseSizes ((cnt.drop 7).toString) with
         | some u, some m, some sizes, some tot, some cnt =>
+          let formulaOk := match c.splitOn " " with
+            | [_, ps, sz] => match ps.toNat?, parseSizes sz with
+              | some ps, some payloads =>
+                let usable := ps - Generated.BTree.btreeHeaderSize
+                decide (u = (usable * 3 + 3) / 4) && decide (m = (usable + 3) / 4) &&
+                  sizes == payloads.map fun n => Generated.BTree.cellHeaderSize + (n + 7) / 8 * 8 + Generated.BTree.slotSize
+              | _, _ => false
+            | _ => false
+          if !formulaOk then "bad cell-size / threshold formulas of the model differ from the code" else
           match Balance.bestDistribution u m sizes with
           | some (tot', cnt') =>
             if tot' = tot ∧ cnt' = cnt then "ok" else s!"bad model totals={joinNats tot'} counts={joinNats cnt'}"
           | none => "bad model: fix-up loop does not terminate / leaves the cell array"
         | _, _, _, _, _ => "bad unparsable observation"
-      | _ => if gat = "bad-op" then "ok" else "bad implementation failed"
+      | _ =>
+        if gat = "bad-op" then "ok"
+        else if gat.startsWith "panic@tree/bplustree.rs:" then
+          -- the helper panicked (usize underflow in the fix-up): admissible iff the model predicts exactly that
+          match c.splitOn " " with
+          | [_, ps, sz] =>
+            match ps.toNat?, parseSizes sz with
+            | some ps, some payloads =>
+              let usable := ps - Generated.BTree.btreeHeaderSize
+              let sizes := payloads.map fun n => Generated.BTree.cellHeaderSize + (n + 7) / 8 * 8 + Generated.BTree.slotSize
+              match Balance.bestDistribution ((usable * 3 + 3) / 4) ((usable + 3) / 4) sizes with
+              | none => "ok"
+              | some _ => "bad implementation panics, model does not"
+            | _, _ => "bad implementation failed"
+          | _ => "bad implementation failed"
+        else "bad implementation failed"
     else if gat = "bad-op" then "ok" else "bad unknown case kind"
   | _ => "bad-op"
 
